@@ -217,8 +217,17 @@ def _first_haplotype(repo, L):
     init = cg.methods.get("__init__")
     hp = init.params()[1]
     loops = [n for n in walk_shallow(init.node) if isinstance(n, ast.For)]
-    ok = len(loops) == 1 and is_name(loops[0].iter, hp) and len(loops[0].body) == 1 and isinstance(loops[0].body[0], ast.Assign)
-    L.check(ok, "R4", "ChrGroup.__init__", "per-haplotype table filled in the order the haplotypes were first seen", f"ChrGroup orders its haplotypes by '{norm(loops[0].iter) if loops else None}', not in first-seen order: chromosome numbers follow another haplotype's sizes", init.loc())
+    comps = [n.value for n in walk_shallow(init.node) if isinstance(n, ast.Assign) and isinstance(n.value, ast.DictComp) and any(norm(t) == "self.data" for t in n.targets)]
+    if len(loops) == 1 and not comps:
+        it = loops[0].iter
+        ok = is_name(it, hp) and len(loops[0].body) == 1 and isinstance(loops[0].body[0], ast.Assign)
+    elif len(comps) == 1 and not loops and len(comps[0].generators) == 1:
+        g = comps[0].generators[0]
+        it = g.iter
+        ok = is_name(it, hp) and not g.ifs and isinstance(g.target, ast.Name) and is_name(comps[0].key, g.target.id)
+    else:
+        raise AnalysisError("ChrGroup.__init__: how the per-haplotype table is filled is not understood (neither one loop nor one dict comprehension)")
+    L.check(ok, "R4", "ChrGroup.__init__", "per-haplotype table filled in the order the haplotypes were first seen", f"ChrGroup orders its haplotypes by '{norm(it)}', not in first-seen order: chromosome numbers follow another haplotype's sizes", init.loc())
     lf = cg.methods.get("length_of_first_haplotype")
     ok2 = lf is not None and any(isinstance(n, ast.Assign) and isinstance(n.targets[0], ast.Tuple) and norm(n.value) == "self.data.values()" and isinstance(n.targets[0].elts[0], ast.Name) and len(n.targets[0].elts) == 2 and isinstance(n.targets[0].elts[1], ast.Starred) for n in walk_shallow(lf.node))
     L.check(ok2, "R4", "ChrGroup.length_of_first_haplotype", "takes the first haplotype's scaffolds", "length_of_first_haplotype does not take the first entry of the per-haplotype table", lf.loc() if lf else "")
